@@ -137,7 +137,8 @@ def _normalize_parsed_value_elements(
 
     if hasattr(parsed, "information"):
         notification_body = parsed.information.notification_body
-        dictionary[obis_map.FIELD_METER_DATETIME] = parsed.information.DateTime.datetime
+        if hasattr(parsed.information.DateTime, "datetime"):
+            dictionary[obis_map.FIELD_METER_DATETIME] = parsed.information.DateTime.datetime
     else:
         notification_body = parsed
 
@@ -147,14 +148,23 @@ def _normalize_parsed_value_elements(
         (x for x in _field_order_lists if len(x) == len(list_items)), []
     )
 
+    if not current_list_names:
+        raise ValueError(f"Unexpected number of list items: {len(list_items)}")
+
     for measure in list_items:
         element_name = current_list_names[measure.index]
 
         if element_name == obis_map.FIELD_METER_DATETIME:
+            if not hasattr(measure.value, "datetime"):
+                raise ValueError(f"Unexpected value for {element_name}: {measure.value}")
             dictionary[element_name] = measure.value.datetime
         else:
             scale = _FIELD_SCALING.get(element_name, None)
             if scale:
+                if not isinstance(measure.value, int):
+                    raise ValueError(
+                        f"Unexpected value for {element_name}: {measure.value}"
+                    )
                 scaled_value = round(measure.value * (10**scale), abs(scale))
                 dictionary[element_name] = scaled_value
             else:
@@ -187,6 +197,10 @@ def _normalize_parsed_obis_elements(
         else:
             scale = _FIELD_SCALING.get(element_name, None)
             if scale:
+                if not isinstance(measure.value, int):
+                    raise ValueError(
+                        f"Unexpected value for {element_name}: {measure.value}"
+                    )
                 scaled_value = round(measure.value * (10**scale), abs(scale))
                 dictionary[element_name] = scaled_value
             else:
